@@ -22,7 +22,9 @@ pub enum Term { Field(usize), Const(u64), Add(usize, u64), Sub(usize, u64), AddF
 pub enum Cmp { Gt, Lt, Eq, Ge, Le, Ne }
 
 #[derive(Clone, Debug, Serialize, Deserialize, PartialEq)]
-pub enum Guard { Wild, CmpC(usize, Cmp, u64), CmpF(usize, Cmp, usize) }
+pub enum Guard { Wild, CmpC(usize, Cmp, u64), CmpF(usize, Cmp, usize),
+  /// conjunction / disjunction of two comparisons with constants: `a > 1u64 && b < 3u64`, `a > 1u64 || b < 3u64`
+  And(usize, Cmp, u64, usize, Cmp, u64), Or(usize, Cmp, u64, usize, Cmp, u64) }
 
 #[derive(Clone, Debug, Serialize, Deserialize, PartialEq)]
 pub enum Target { State(usize, Vec<Term>), Done(Term) }
@@ -95,7 +97,9 @@ pub enum Invocation { Ok(Vec<u64>), WrongKind(Vec<u64>, usize, String), WrongCou
 // element kind ("f64" = untyped literals); WrongCount(v) passes the vector and an extra scalar
 
 #[derive(Clone, Debug, Serialize, Deserialize)]
-pub struct Plan { pub machine: Machine, pub invocations: Vec<(Invocation, usize)>, pub hash_seed: u64 }
+pub struct Plan { pub machine: Machine, pub invocations: Vec<(Invocation, usize)>, pub hash_seed: u64,
+  /// how each invocation is written: 0 bare `#M(..)`, 1 `r3 := #M(..)`, 2 arguments through variables defined just before
+  #[serde(default)] pub styles: Vec<u8> }
 
 const STATE_NAMES: [&str; 6] = ["A", "B", "C", "D", "Ghost", "Orphan"];
 const FIELDS: [&str; 3] = ["n", "a", "b"];
@@ -118,6 +122,8 @@ fn guard_text(g: &Guard, f: &[&str; 3]) -> String {
     Guard::Wild => "*".to_string(),
     Guard::CmpC(i, c, k) => format!("{} {} {}u64", f[*i], cmp_text(c), k),
     Guard::CmpF(i, c, j) => format!("{} {} {}", f[*i], cmp_text(c), f[*j]),
+    Guard::And(i, c1, k1, j, c2, k2) => format!("{} {} {}u64 && {} {} {}u64", f[*i], cmp_text(c1), k1, f[*j], cmp_text(c2), k2),
+    Guard::Or(i, c1, k1, j, c2, k2) => format!("{} {} {}u64 || {} {} {}u64", f[*i], cmp_text(c1), k1, f[*j], cmp_text(c2), k2),
   }
 }
 fn target_text(t: &Target, f: &[&str; 3]) -> String {
@@ -394,7 +400,7 @@ fn eval_term(t: &Term, f: &[u64]) -> Option<u64> {
 }
 fn eval_guard(g: &Guard, f: &[u64]) -> bool {
   let c = |c: &Cmp, a: u64, b: u64| match c { Cmp::Gt => a > b, Cmp::Lt => a < b, Cmp::Eq => a == b, Cmp::Ge => a >= b, Cmp::Le => a <= b, Cmp::Ne => a != b };
-  match g { Guard::Wild => true, Guard::CmpC(i, cm, k) => c(cm, f[*i], *k), Guard::CmpF(i, cm, j) => c(cm, f[*i], f[*j]) }
+  match g { Guard::Wild => true, Guard::CmpC(i, cm, k) => c(cm, f[*i], *k), Guard::CmpF(i, cm, j) => c(cm, f[*i], f[*j]), Guard::And(i, c1, k1, j, c2, k2) => c(c1, f[*i], *k1) && c(c2, f[*j], *k2), Guard::Or(i, c1, k1, j, c2, k2) => c(c1, f[*i], *k1) || c(c2, f[*j], *k2) }
 }
 
 fn reference_array(a: &ArrayMachine, input: &[u64]) -> RefRun {
@@ -474,6 +480,7 @@ fn gen_term(rng: &mut Rng, k: usize) -> Term {
 }
 fn gen_guard(rng: &mut Rng, k: usize) -> Guard {
   let cmp = rng.pick(&[Cmp::Gt, Cmp::Lt, Cmp::Eq, Cmp::Ge, Cmp::Le, Cmp::Ne]).clone();
+  if rng.chance(1, 8) { let c2 = rng.pick(&[Cmp::Gt, Cmp::Lt, Cmp::Eq, Cmp::Ge, Cmp::Le, Cmp::Ne]).clone(); let (i, k1, j, k2) = (rng.usize(k), *rng.pick(&[0u64, 1, 2, 3, 5]), rng.usize(k), *rng.pick(&[0u64, 1, 2, 3, 5])); return if rng.chance(1, 2) { Guard::And(i, cmp, k1, j, c2, k2) } else { Guard::Or(i, cmp, k1, j, c2, k2) }; }
   if k > 1 && rng.chance(1, 3) { let i = rng.usize(k); let mut j = rng.usize(k); if j == i { j = (i + 1) % k; } Guard::CmpF(i, cmp, j) } else { Guard::CmpC(rng.usize(k), cmp, *rng.pick(&[0u64, 1, 2, 3, 5])) }
 }
 fn gen_target(rng: &mut Rng, k: usize, n_states: usize, done_bias: u64) -> Target {
@@ -550,7 +557,9 @@ pub fn plan(seed: u64, k: u64) -> Plan {
     };
     invocations.push((inv, budget));
   }
-  Plan { machine, invocations, hash_seed: rng.next() }
+  let hash_seed = rng.next();
+  let styles: Vec<u8> = (0..invocations.len()).map(|_| match rng.below(6) { 0 => 1, 1 => 2, _ => 0 }).collect();
+  Plan { machine, invocations, hash_seed, styles }
 }
 
 // -------------------------------------------------------------------------------------------------
@@ -621,7 +630,16 @@ fn execute_on_thread(pl: &Plan, progress: &std::sync::Arc<std::sync::Mutex<(Stri
   let vio = |class: &str, detail: &str, summary: String| Violation { class: class.to_string(), signature: format!("{}|{}", class, detail), summary };
   let mut declared = false;
   for (idx, (inv, budget)) in pl.invocations.iter().enumerate() {
-    let inv_text = render_invocation_for(m, inv);
+    let mut inv_text = render_invocation_for(m, inv);
+    match (pl.styles.get(idx).copied().unwrap_or(0), inv) {
+      (1, _) => { inv_text = format!("r{} := {}", idx, inv_text); }
+      (2, Invocation::Ok(vals)) if !m.is_array() => {
+        let names: Vec<String> = (0..vals.len()).map(|j| format!("arg{}n{}", idx, j)).collect();
+        let defs: Vec<String> = names.iter().zip(vals.iter()).map(|(n, v)| format!("{} := {}u64", n, v)).collect();
+        inv_text = format!("{}\n#M({})", defs.join("\n"), names.join(", "));
+      }
+      _ => {}
+    }
     let text = if !declared { format!("{}\n{}", decl, inv_text) } else { inv_text.clone() };
     node.intrp.max_steps = *budget;
     node.intrp.clear_trace_events();
